@@ -15,7 +15,7 @@ from bctmc.runner import guarded
 from bctmc.tally import Tally
 
 PROPERTY = 'C02'
-RULE = ('randomised detectors: every labelled 4-node graph with positive weight (binary), every 3-node digraph, 4-node '
+RULE = ('a 54-node network with three nested levels (2 x 3 x 3 triangles) under the four answer strategies of bctmc/structured.py (not exhaustive over orders) for community_louvain, modularity_louvain_und and modularity_finetune_und; randomised detectors: every labelled 4-node graph with positive weight (binary), every 3-node digraph, 4-node '
         'signed patterns (also with self-connections of either sign), a few named 5-6 node graphs, signed patterns with one sign class scaled by 1e-10, int64 and int32 (weights 2^30) copies of a subset, directed signed 3-node networks over {-1,0,1,2} for the signed objectives of community_louvain; gamma in {1, 1.25} (subsets also with 0.5 and 3); probtune p in {0, 0.45, 1}; every built-in objective / qtype; initial '
         'partition none or one of a fixed subset of the 15 set partitions (all 15 in thorough), subsets also with zero-based, gapped and larger-than-n labels and with every set partition under reversed / cyclically shifted labels; hierarchy in {False, True}; '
         'ALL visiting orders at every sweep; deterministic modularity_und/_dir/_und_sign: every graph n<=4 (5 thorough) / '
@@ -207,6 +207,57 @@ def catalogue(thorough):
 THOROUGH = [False]
 
 
+def nested54():
+    """2 x 3 x 3 triangles with weights 4 / 1 / 0.4 / 0.02 per nesting level: three aggregation levels are resolved in
+    separate passes (no 4-6 node input has a third merging pass)."""
+    n = 54
+    W = np.zeros((n, n))
+    for i in range(n):
+        for j in range(i + 1, n):
+            if i // 3 == j // 3:
+                w = 4.0
+            elif i // 9 == j // 9:
+                w = 1.0
+            elif i // 27 == j // 27:
+                w = 0.4
+            else:
+                w = 0.02
+            W[i, j] = W[j, i] = w
+    return W
+
+
+def work_nested():
+    """54 nodes: the n! menus cannot be enumerated; the four answer strategies of bctmc/structured.py are (stated, not
+    exhaustive over answers)."""
+    from bctmc.structured import StructuredRandomState, STRATEGIES
+    t = Tally(PROPERTY)
+    W = nested54()
+    calls = [('community_louvain', {'gamma': g, 'B': 'modularity'}) for g in (0.8, 1.0, 0.6)] + \
+            [('modularity_louvain_und', {'gamma': g, 'hierarchy': h}) for g in (0.8, 1.0) for h in (False, True)] + \
+            [('modularity_finetune_und', {'gamma': 0.8})]
+    for fn, kw in calls:
+        for strat in STRATEGIES:
+            st, out = guarded(getattr(bct, fn), W.copy(), seed=StructuredRandomState(strat), _timeout=600, **kw)
+            t.c['evaluations'] += 1
+            case = {'config': {'fn': fn, 'tag': 'nested54', 'kw': kw}, 'answer_strategy': strat}
+            if st != 'ok':
+                t.viol(fn, 'raises', case, observed=out)
+                continue
+            ci, q = out
+            levels = list(zip(ci, q)) if kw.get('hierarchy') else [(ci, q)]
+            for lev, (c, qq) in enumerate(levels):
+                c = np.asarray(c).astype(int)
+                if sorted(set(c.tolist())) != list(range(1, int(c.max()) + 1)) or len(c) != len(W):
+                    t.viol(fn, 'labels_1_to_k', dict(case, level=lev), observed=sorted(set(c.tolist()))[:10])
+                    continue
+                ref = lv.q_dir(W, c, kw['gamma'])
+                if abs(float(qq) - ref) > 1e-9:
+                    t.viol(fn, 'q_is_modularity_of_returned_partition', dict(case, level=lev), observed=float(qq), expected=ref,
+                           detail={'modules': int(c.max())})
+    t.c['nontrivial'] += 1
+    return t
+
+
 def plan(ctx):
     THOROUGH[0] = ctx.thorough
     cfgs = catalogue(ctx.thorough)
@@ -217,6 +268,7 @@ def plan(ctx):
         units.append(('explore', [c]))
     for k in range(0, len(small), 6):
         units.append(('explore', small[k:k + 6]))
+    units.append(('nested', 0, 0, 0))
     nu = 5 if ctx.thorough else 4
     nd = 4 if ctx.thorough else 3
     for n in range(2, nu + 1):
@@ -303,6 +355,8 @@ def det_case(t, fname, W, kw, case, qref):
 
 
 def work(unit):
+    if unit[0] == 'nested':
+        return work_nested()
     t = Tally(PROPERTY)
     if unit[0] == 'explore':
         for cfg in unit[1]:
@@ -360,6 +414,8 @@ def coverage(ctx, total):
 
 def replay(rec):
     case = rec['case']
+    if 'answer_strategy' in case:
+        return work_nested()
     if 'config' in case:
         return lv.replay_case(PROPERTY, rec, judge)
     t = Tally(PROPERTY)
